@@ -55,3 +55,48 @@ add('C12.twin_rename', 'C12', (QT,
     return cls(**params_copy)""",
     """    kwargs = copy.deepcopy(params)
     return cls(**kwargs)"""), (), 'rename a temporary in TensorQuantizationConfig.from_dict', kind='twin')
+
+# ---------------------------------------------------------------------- C14
+PG = 'params_generator.py'
+QZ = 'quantizer.py'
+CAL = 'calibrator.py'
+add('C14.f1', 'C14', (PG,
+    """    else:
+      # Materialization functions overwrite QSVs in place (same-as-input-scale
+      # and fixed-range ops); do not modify the caller's calibration result.
+      model_qsvs = copy.deepcopy(model_qsvs)
+""", ""), 'C14.R1', 'defect F1 returns: materialisers store into the caller\'s calibration result', control=True)
+add('C14.shallow_copy', 'C14', (PG, "      model_qsvs = copy.deepcopy(model_qsvs)\n", "      model_qsvs = dict(model_qsvs)\n"),
+    'C14.R1', 'a shallow copy is not enough: fixed-range ops store into the per-tensor dict')
+add('C14.two_level_copy', 'C14', (PG, "      model_qsvs = copy.deepcopy(model_qsvs)\n",
+    "      model_qsvs = {name: dict(qsv) for name, qsv in model_qsvs.items()}\n"),
+    (), 'a two-level copy covers both store depths (name -> qsv -> min/max)', kind='twin')
+add('C14.cache_pg', 'C14', (QZ,
+    """    params_generator_instance = params_generator.ParamsGenerator(
+        self.float_model
+    )
+""",
+    """    if not hasattr(self, '_params_generator'):
+      self._params_generator = params_generator.ParamsGenerator(
+          self.float_model
+      )
+    params_generator_instance = self._params_generator
+"""), ('C14.R2', 'C14.R3'), 'Quantizer caches its ParamsGenerator (accumulated results leak into the next quantize())', control=True)
+add('C14.load_qsvs_nocopy', 'C14', (CAL, "    self._model_qsvs = copy.deepcopy(model_qsvs)", "    self._model_qsvs = model_qsvs"),
+    'C14.R1', 'previous calibration result kept by reference and then updated in place')
+add('C14.input_dict', 'C14', ('utils/tfl_interpreter_utils.py', "  signature_input = signature_input_data.copy()", "  signature_input = signature_input_data"),
+    'C14.R1', 'calibration/test sample dict overwritten with its quantized value')
+add('C14.str_set_iter', 'C14', (CAL, "    for tensor_name, qsv in op_qsvs.items():\n      if tensor_name in ignore_tensor_names:",
+    "    for tensor_name in set(op_qsvs) - ignore_tensor_names:\n      qsv = op_qsvs[tensor_name]\n      if tensor_name in ignore_tensor_names:"),
+    'C14.R4', 'iteration over a set of tensor names (hash-seed dependent order)')
+add('C14.module_cache', 'C14', [(PG, "_QuantTrans = qtyping.QuantTransformation\n", "_QuantTrans = qtyping.QuantTransformation\n_RESULT_CACHE = {}\n"),
+    (PG, "    self._post_process_results()\n    return self.model_quant_results", "    self._post_process_results()\n    _RESULT_CACHE[id(model_recipe_manager)] = self.model_quant_results\n    return self.model_quant_results")],
+    ('C14.R3', 'C14.R5'), 'module-level cache written by quantize()')
+add('C14.unseeded', 'C14', ('utils/test_utils.py', "rng = np.random.default_rng(random_seed)", "rng = np.random.default_rng()"),
+    'C14.R5', 'validate() default data drawn from an unseeded generator')
+add('C14.twin_rename', 'C14', (QZ, "    calib = calibrator.Calibrator(self.float_model)\n    if previous_calibration_result is not None:\n      calib.load_model_qsvs(previous_calibration_result)\n    calib.calibrate(calibration_data, self._recipe_manager, signature_key)\n    return calib.get_model_qsvs()",
+    "    model_calibrator = calibrator.Calibrator(self.float_model)\n    if previous_calibration_result is not None:\n      model_calibrator.load_model_qsvs(previous_calibration_result)\n    model_calibrator.calibrate(calibration_data, self._recipe_manager, signature_key)\n    return model_calibrator.get_model_qsvs()"),
+    (), 'rename the per-call Calibrator local', kind='twin')
+add('C14.result_history', 'C14', (QZ, "    quant_params = self._get_quantization_params(calibration_result)\n",
+    "    if self._result.quantized_model is not None and calibration_result is None:\n      return self._result\n    quant_params = self._get_quantization_params(calibration_result)\n"),
+    'C14.R3', 'quantize() short-circuits on the previous result (stale after a recipe update)')
